@@ -25,6 +25,10 @@ def m(id, prop, rule, file, old, new, kind="fire", nth=1):
     return dict(id=id, prop=prop, rule=rule, file=file, old=old, new=new, kind=kind, nth=nth)
 
 
+_SH_OLD = ("self.sock.sendall(cmd)", 'self.sock.sendall(b"".join(cmds))', 'self.sock.sendall(b"".join(cmds))', "            if e.errno != errno.EINTR:\n                raise\n")
+_SH_NEW = ("_sendall(self.sock, cmd)", '_sendall(self.sock, b"".join(cmds))', '_sendall(self.sock, b"".join(cmds))')
+
+
 MUTANTS = [
     # ---------------- C01
     m("C01-store-no-close", "C01", "C01.R1", B, "            return results\n        except BaseException:\n            self.close()\n            raise\n\n    def _misc_cmd", "            return results\n        except BaseException:\n            raise\n\n    def _misc_cmd"),
@@ -34,6 +38,11 @@ MUTANTS = [
     # iterating the dict itself instead of the recorded key list reads one reply per command all the same
     m("C01-silent-store-read-values", "C01", "", B, "            for key in keys:\n                try:\n                    buf, line = _readline(self.sock, buf)", "            for key in values:\n                try:\n                    buf, line = _readline(self.sock, buf)", kind="silent"),
     m("C01-buf-on-self", "C01", "C01.R4", B, "            results = []\n            buf = b\"\"\n            line = None\n            for cmd in cmds:", "            results = []\n            buf = b\"\"\n            self._last_buf = buf\n            line = None\n            for cmd in cmds:"),
+    # a module-level send helper (the three sends go through it); C01.R7 decides that it is one send
+    m("C01-send-helper-retries", "C01", "C01.R7", B, _SH_OLD, _SH_NEW + ("            if e.errno != errno.EINTR:\n                raise\n\n\ndef _sendall(sock, data):\n    while True:\n        try:\n            sock.sendall(data)\n            return\n        except OSError as e:\n            if e.errno != errno.EINTR:\n                raise\n",)),
+    m("C01-send-helper-swallows", "C01", "C01.R7", B, _SH_OLD, _SH_NEW + ("            if e.errno != errno.EINTR:\n                raise\n\n\ndef _sendall(sock, data):\n    try:\n        sock.sendall(data)\n    except OSError:\n        pass\n",)),
+    m("C01-send-helper-twice", "C01", "C01.R7", B, _SH_OLD, _SH_NEW + ("            if e.errno != errno.EINTR:\n                raise\n\n\ndef _sendall(sock, data):\n    sock.sendall(data)\n    if len(data) > 1024:\n        sock.sendall(data)\n",)),
+    m("C01-silent-send-helper", "C01", "", B, _SH_OLD, _SH_NEW + ("            if e.errno != errno.EINTR:\n                raise\n\n\ndef _sendall(sock, data):\n    try:\n        sock.sendall(data)\n    except OSError:\n        raise\n",), kind="silent"),
     m("C01-misc-handler-oserror-only", "C01", "C01.R1", B, "            return results\n\n        except BaseException:\n            self.close()\n            raise", "            return results\n\n        except OSError:\n            self.close()\n            raise"),
     m("C01-silent-close-alias", "C01", "", B, "        except BaseException:\n            self.close()\n            raise\n\n    def __setitem__", "        except BaseException:\n            self.disconnect_all()\n            raise\n\n    def __setitem__", kind="silent"),
     # ---------------- C02
